@@ -1,5 +1,5 @@
 import RosuModel.Lemmas.TaikoPreAll
-import RosuModel.Lemmas.TaikoGradFix
+import RosuModel.Lemmas.TaikoGradFixNth
 import RosuModel.Props.C02
 
 /-!
@@ -166,6 +166,24 @@ theorem taiko_fixed_len_tracks (sk : Skills S) (objs : List Bool) (k : Nat) (hk 
     show Gradual.csub (objs.filter id).length (taikoNextFixed sk objs _).2.idx = _
     rw [this]
     simp [Gradual.csub, hitsIn]
+
+/-- **Repaired machine**: `nth(n)` after any `k ≤ H` values never panics; with `r = H - k` values
+remaining it returns `None` when `r = 0` and otherwise exactly the value number `k + min(n, r-1) + 1`,
+i.e. what `min(n + 1, r)` calls of `next` would return last (for `n ≥ r` that is the recorded
+`gradual-nth-clamps-to-last` behaviour, untouched). -/
+theorem taiko_fixed_nth_eq_nexts (sk : Skills S) (objs : List Bool) (k n : Nat) (hk : k ≤ hitsIn objs) :
+    let g := ((taikoMachineFixed sk objs).nexts (taikoNew sk objs) k).2
+    (k = hitsIn objs → ((taikoMachineFixed sk objs).nth g n).1 = .none) ∧
+    (k < hitsIn objs →
+      ((taikoMachineFixed sk objs).nth g n).1 =
+        .some (taikoOneShot sk objs (k + min n (hitsIn objs - k - 1) + 1))) := by
+  intro g
+  obtain ⟨_, hc⟩ := taikoFixed_nexts_spec sk objs k (taikoNew sk objs) 0 (fixCanon_new sk objs) (by omega)
+  simp only [Nat.zero_add] at hc
+  have hs := taikoNthFixed_spec sk objs g k n hc
+  refine ⟨fun h => (hs.1 h).1, fun h => ?_⟩
+  rw [taikoOneShot_general sk objs _ (by omega) (by omega)]
+  exact (hs.2 h).1
 
 /-- The inputs on which the unrepaired machine fails (`C02.taiko_first_nonhit_fails`,
 `taiko_short_map_fails`) evaluated on the repaired one. -/
